@@ -10,6 +10,9 @@ N1  `x = <expr>` immediately followed by `return x`, where x is read nowhere els
 N2  a `try` whose handlers do nothing but re-raise (`except ...: raise`, optionally after calls on a
     logger) and which has no `else` is replaced by its body (a `finally`, if any, is kept).
 
+N3  inside functions `x: T = v` (plain name) becomes `x = v`; the annotation is kept on the node
+    (`sa_annotation`) for the type resolver.
+
 Every rewrite is local, keeps evaluation order, and leaves line numbers of the surviving nodes
 untouched.  (Found necessary by the `--retvar` false-alarm probe of tools/refactor_twin.py.)
 """
@@ -146,9 +149,40 @@ class _N2(ast.NodeTransformer):
         return node
 
 
+class _N3(ast.NodeTransformer):
+    def __init__(self) -> None:
+        self.depth = 0
+        self.count = 0
+
+    def visit_FunctionDef(self, node):
+        self.depth += 1
+        self.generic_visit(node)
+        self.depth -= 1
+        return node
+
+    visit_AsyncFunctionDef = visit_FunctionDef
+
+    def visit_ClassDef(self, node):
+        saved, self.depth = self.depth, 0
+        self.generic_visit(node)
+        self.depth = saved
+        return node
+
+    def visit_AnnAssign(self, node):
+        if self.depth and isinstance(node.target, ast.Name) and node.value is not None:
+            a = ast.Assign(targets=[node.target], value=node.value, type_comment=None)
+            ast.copy_location(a, node)
+            a.sa_annotation = node.annotation  # type: ignore[attr-defined]
+            self.count += 1
+            return a
+        return node
+
+
 def normalise(tree: ast.Module) -> tuple[ast.Module, dict[str, int]]:
+    t3 = _N3()
+    tree = t3.visit(tree)
     t2 = _N2()
     tree = t2.visit(tree)
     t = _N1()
     tree = t.visit(tree)
-    return tree, {"N1": t.count, "N2": t2.count}
+    return tree, {"N1": t.count, "N2": t2.count, "N3": t3.count}
